@@ -108,6 +108,15 @@ theorem C15_accept_characterisation (H : Bytes → Bytes) (hH : ∀ x, 4 ≤ (H 
     rw [if_neg (by omega), if_neg (by simpa using hp), if_neg (by simpa using hc)]
     exact hd
 
+/-- (regenerated facts) the two comparisons of `DecodeString` that the model mirrors as exact
+(in)equalities are, in the current codec.go, the exact string inequality `encodedPrefix != sidecarPrefix`
+and `!bytes.Equal(checksum, calculatedChecksum)` over the full slices.  A source that compares in any
+other way (case-insensitively, on a shorter slice, …) breaks this obligation, and with it the claim that
+`C15_wrong_prefix_rejected` / `C15_accept_characterisation` speak about the code. -/
+theorem C15_source_comparisons_exact :
+    Pool.Gen.C15.decodeStringPrefixCond = "encodedPrefix != sidecarPrefix" ∧
+    Pool.Gen.C15.decodeStringChecksumCond = "!bytes.Equal(checksum, calculatedChecksum)" := by decide
+
 /-- A string whose first seven bytes are not exactly the prefix is never accepted. -/
 theorem C15_wrong_prefix_rejected (H : Bytes → Bytes) (hH : ∀ x, 4 ≤ (H x).length) (cfg : Cfg) (s : Bytes)
     (h : s.take 7 ≠ prefixBytes) (t : Ticket) : decodeString H cfg s ≠ .ok t := by
